@@ -184,6 +184,14 @@ class TreeDriver:
                 call = out[0].error_name.rsplit('.', 1)[-1]
             else:
                 call = '%d replies' % len(out)
+            if call == 'UnknownObject':
+                # nothing is exported here: that is the answer to a call on ANY interface, the standard ones included
+                for ifc, mem in (('org.freedesktop.DBus.Peer', 'GetMachineId'), ('org.freedesktop.DBus.Properties', 'GetAll'),
+                                 ('org.freedesktop.DBus.Peer', 'Pong')):
+                    c3, out3 = self.call(qs, ifc, mem)
+                    if not (len(out3) == 1 and out3[0]._messageType == 3 and
+                            out3[0].error_name == 'org.freedesktop.DBus.Error.UnknownObject'):
+                        call = 'UnknownObject, but %s.%s is answered otherwise' % (ifc.rsplit('.', 1)[-1], mem)
             view[q] = {'intro': intro, 'managed': managed, 'call': call}
         return {'sig': self.last_sig, 'view': FnDict(view)}
 
